@@ -25,7 +25,9 @@ func init() {
 			"R3: Storage.Delete is dominated by the true edge of CompareAndSwap(held,1,0) on the same Locker. R4: every storage call uses the Locker's own key field, which is stored only by NewLocker. R5: the held flag is touched only through sync/atomic. " +
 			"L1: the lock record is always written with ExpiresAt = now + lease, the clock read at the time of the write (a record born expired lets a second caller in). S1/S2: the in-memory storage the lockers race on executes every operation as one critical section and lets Create succeed only on the key-absent edge. " +
 			"R7: the lease renewal writes only by CasByVersion. R8: an attempt that ran its failure epilogue (token given back) cannot report success. " +
-			"R6: a tenure issues at most one Delete (a by-key delete repeated after a lost reply removes a successor's record). L2: the lease renewal does not run under the context of the acquisition call (that context normally ends right after the call returned; every renewal would fail and the record lapse under the holder).",
+			"R6: a tenure issues at most one Delete (a by-key delete repeated after a lost reply removes a successor's record). L2: the lease renewal does not run under the context of the acquisition call (that context normally ends right after the call returned; every renewal would fail and the record lapse under the holder). " +
+			"L3: every acquisition arms its first renewal with this Create's version and a period of lease/k, k>=2 (a renewal due at the end of the lease finds the record expired, the chain ends and a second caller creates the record under the live holder). " +
+			"L4: what runs on the renewal timer's goroutine never cancels a timer it has read from the Locker's timer slot - the slot is per Locker object, a renewal of a finished tenure that is still in flight would cancel the live timer of the next tenure, whose record then lapses under its holder; it may cancel only a timer it armed itself.",
 		NotDecided: "exclusion itself over interleavings and fault placements (needs C02 for the storage and the lease assumption).",
 	})
 	register(&Check{
@@ -37,7 +39,8 @@ func init() {
 			"R3: on the ErrExist edge the loop waits with WaitForVersionChange(ctx,key,v), v the version returned by the failed Create, and goes round again on a fresh ctx.Err(). " +
 			"R4: the token helpers return nil only on the 'still open' edge of a shutdown test made after taking the token. R5: the local wait has a ctx.Done() case returning ctx.Err(); Shutdown closes the done channel. " +
 			"R6: the lease renewal writes only by CasByVersion (it never re-creates a record: ErrNotExist also means the holder unlocked). R7: an attempt that gave the token back reports failure. " +
-			"W1/W2: in the in-memory store every mutation notifies the key's waiters and the waiter's check and registration are one critical section (no lost wake-up at the storage level). R8: on every path from the return of the storage wait to the next Create the shutdown channel is tested and found open (paths enumerated with phi operands resolved per path). W7: a waiter registers again on its entry only after the previous registration was withdrawn or consumed by a notification. R9: an attempt resets the held flag before it puts the local token back (in the other order a goroutine sharing the Locker takes the token while the flag still reads held, fails on the flag and the token is lost).",
+			"W1/W2: in the in-memory store every mutation notifies the key's waiters and the waiter's check and registration are one critical section (no lost wake-up at the storage level). R8: on every path from the return of the storage wait to the next Create the shutdown channel is tested and found open (paths enumerated with phi operands resolved per path). W7: a waiter registers again on its entry only after the previous registration was withdrawn or consumed by a notification. R9: an attempt resets the held flag before it puts the local token back (in the other order a goroutine sharing the Locker takes the token while the flag still reads held, fails on the flag and the token is lost). " +
+			"R10: on no path from the success outcome of Storage.Create does an attempt reach a failing exit without deleting the record it has created (a refused attempt that leaves its record behind keeps every other Locker out for a lease although nobody holds the lock).",
 		NotDecided: "absence of lost wake-ups over all schedules as such; fairness.",
 	})
 	register(&Check{
@@ -48,7 +51,9 @@ func init() {
 		Explanation: "L1: every record passed to Create/CasByVersion has ExpiresAt = now + lease. L2: between the Create success edge and the success exit a renewal is armed with timeout.Call(fn, lease/k), k>=2, fn reaching the renewal routine with that Create's version, and stored in the Locker's timer slot. " +
 			"L3: the renewal's CAS success edge re-arms with the new version; exits after a definitive loss (ErrNotExist/ErrConflict) arm nothing and write nothing. L4: every exit of the renewal that arms nothing is dominated by a positive class test for ErrNotExist or ErrConflict (a transient error must not end the chain). " +
 			"L8: the renewal writes only by CasByVersion; a retry after an error is armed only when both ErrNotExist and ErrConflict were excluded. L5: the renewal is a CAS on the Locker's key with the tenure's version. L6: the renewal does not use the acquisition's context. L7: Unlock cancels the armed timer before deleting the record. " +
-			"T1-T7: the timer keeps heap indices current and Cancel is guarded (C12 rules). U1-U9: a queued renewal is not slept through (C13 rules). U10: the timer worker waits only with a time bound - a blocking select has a timer case, a bare receive is a receive from a timer (C13.R10): a worker blocked for good is still counted, the others retire around it and the renewal is not started. E1/E2: the in-memory store treats an expired record as absent and bounds a parked waiter by the expiry (dead-holder clause). L9: the renewal cancels the timer it has just armed under a condition that reads the Locker's held flag / tenure - the compare-and-swap of the timer slot alone does not see an Unlock (open finding). L10: Unlock deletes the lock record on every path (the Delete is what makes a renewal that is still in flight - see L9 - fail on the version and die out; a record that survives Unlock is renewed for ever).",
+			"T1-T7: the timer keeps heap indices current and Cancel is guarded (C12 rules). U1-U9: a queued renewal is not slept through (C13 rules). U10: the timer worker waits only with a time bound - a blocking select has a timer case, a bare receive is a receive from a timer (C13.R10): a worker blocked for good is still counted, the others retire around it and the renewal is not started. E1/E2: the in-memory store treats an expired record as absent and bounds a parked waiter by the expiry (dead-holder clause). L9: the renewal cancels the timer it has just armed under a condition that reads the Locker's held flag / tenure - the compare-and-swap of the timer slot alone does not see an Unlock (open finding). L10: Unlock deletes the lock record on every path (the Delete is what makes a renewal that is still in flight - see L9 - fail on the version and die out; a record that survives Unlock is renewed for ever). " +
+			"L11: what runs on the renewal timer's goroutine never cancels a timer it has read from the Locker's timer slot (per Locker object, not per tenure: an attempt of a finished tenure that is still in flight would cancel the live timer of the next tenure - it has to change nothing); it may cancel only a timer it armed itself. " +
+			"L12: a storage wait that runs under a context the library derived itself (own deadline or cancellation) never decides the attempt: behind it the attempt fails only after re-reading the caller's context and finding it ended, after seeing the shutdown, or on a later Create - otherwise a waiter whose own context is alive gives up when the dead holder's record is about to lapse instead of acquiring.",
 		NotDecided: "every timing statement ('within about one lease period'), clock behaviour.",
 	})
 }
@@ -527,9 +532,9 @@ func (c *Ctx) acquirePath(r *lockRoles, fn *ssa.Function) (bool, string, ssa.Ins
 	return true, "", nil
 }
 
-func runC01(c *Ctx) {
-	r := resolveLockRoles(c)
-	// helper summaries to a fixed point
+// acquiringSummaries computes, to a fixed point, the private Locker methods that "acquire": every possible success exit
+// of theirs lies behind the success edge of Storage.Create (C01.R1 for helpers). record: list them in the role table.
+func (c *Ctx) acquiringSummaries(r *lockRoles, record bool) {
 	for changed := true; changed; {
 		changed = false
 		for _, fn := range c.P.MethodsOf(r.locker) {
@@ -556,10 +561,18 @@ func runC01(c *Ctx) {
 			if ok {
 				r.acquiring[fn] = true
 				changed = true
-				c.Role("locker.acquiringHelper", ir.FnName(fn), fn.Pos()) // tolerated, not required: the normal form may inline it
+				if record {
+					c.Role("locker.acquiringHelper", ir.FnName(fn), fn.Pos()) // tolerated, not required: the normal form may inline it
+				}
 			}
 		}
 	}
+}
+
+func runC01(c *Ctx) {
+	r := resolveLockRoles(c)
+	// helper summaries to a fixed point
+	c.acquiringSummaries(r, true)
 	for _, fn := range []*ssa.Function{r.tryLock, r.lock, r.lockCtx} {
 		ok, w, at := c.acquirePath(r, fn)
 		if strings.HasPrefix(w, "undecided") {
@@ -682,6 +695,11 @@ func runC01(c *Ctx) {
 	c.renewalOnlyCAS(r, "C01.R7")
 	c.noSuccessAfterGiveBack(r, "C01.R8")
 	c.renewalContext(r, "C01.L2")
+	// L3: the first renewal is due before the lease of the record it renews runs out; L4: a renewal never cancels the
+	// timer it finds in the slot (it may be the live timer of a later tenure)
+	c.armOnAcquire(r, "C01.L3", false)
+	c.R.Floor("C01.L3", 2)
+	c.renewalCancelsOwnTimer(r, "C01.L4")
 	// L1: a record written with a stale or missing lease lapses under its holder and a second caller acquires
 	c.leaseOnWrite(r, "C01.L1")
 	// S: the storage the lock races on is atomic per operation and decides Create on the absent edge (in-memory backend)
@@ -927,6 +945,8 @@ func runC04(c *Ctx) {
 	c.renewalOnlyCAS(r, "C04.R6")
 	c.noSuccessAfterGiveBack(r, "C04.R7")
 	c.epilogueOrder(r, "C04.R9")
+	c.createdRecordNotLeftBehind(r, "C04.R10")
+	c.R.Floor("C04.R10", 2)
 
 	// R8 shutdown is re-checked after every storage wait: an attempt that was parked in WaitForVersionChange when
 	// Shutdown happened must not go back to Create - on every path from the return of the wait to the next Create the
@@ -1023,86 +1043,7 @@ func runC05(c *Ctx) {
 	c.leaseOnWrite(r, "C05.L1")
 
 	// L2 arm on acquire
-	for _, fn := range r.lockerFns {
-		ir.Instrs(fn, func(in ssa.Instruction) {
-			cr := r.storageCall(in, "Create")
-			if cr == nil {
-				return
-			}
-			var okBlk *ssa.BasicBlock
-			for _, b := range fn.Blocks {
-				for _, s := range b.Succs {
-					if successEdgeOf(cr, b, s) {
-						okBlk = s
-					}
-				}
-			}
-			if okBlk == nil {
-				c.Undecided("C05.L2", fn, "renewal armed on acquisition", in, "cannot find the success edge of Create")
-				return
-			}
-			armed := func(x ssa.Instruction) bool {
-				tc := isTimeoutCall(x)
-				if tc == nil {
-					return false
-				}
-				return r.armsRenewal(tc, cr)
-			}
-			stored := func(x ssa.Instruction) bool {
-				call, ok := x.(*ssa.Call)
-				if !ok || ir.CalleeFullName(call) != "(*sync/atomic.Value).Store" {
-					return false
-				}
-				if _, isSlot := fieldAddrOf(call.Call.Args[0], r.timerF); !isSlot {
-					return false
-				}
-				tc, isTC := ir.Resolve(call.Call.Args[1]).(*ssa.Call)
-				return isTC && isTimeoutCall(tc) != nil
-			}
-			success := func(x ssa.Instruction) bool {
-				ret, ok := x.(*ssa.Return)
-				return ok && ir.IsReturn(x) && possibleSuccessExit(fn, ret)
-			}
-			_ = okBlk
-			// every path from this Create to a success exit, on which the Create did not fail, arms the renewal (and
-			// stores it): paths are enumerated with a per-path valuation, so "err == nil" tested in one place and
-			// "err != nil" in another are the same decision
-			var errTests []*ssa.BinOp
-			ir.Instrs(fn, func(x ssa.Instruction) {
-				bo, ok := x.(*ssa.BinOp)
-				if !ok || (bo.Op != token.EQL && bo.Op != token.NEQ) {
-					return
-				}
-				for _, pair := range [][2]ssa.Value{{bo.X, bo.Y}, {bo.Y, bo.X}} {
-					if ex, isEx := ir.Resolve(pair[0]).(*ssa.Extract); isEx && ex.Tuple == ssa.Value(cr) && ir.IsNilConst(pair[1]) {
-						errTests = append(errTests, bo)
-					}
-				}
-			})
-			createFailed := func(val *ir.Valuation) bool {
-				for _, t := range errTests {
-					if k, ok := val.Known(t); ok {
-						isNil := k == (t.Op == token.EQL)
-						if !isNil {
-							return true
-						}
-					}
-				}
-				return false
-			}
-			pq := func(good func(ssa.Instruction) bool) ir.PathQuery {
-				return ir.PathQuery{Fn: fn, From: in,
-					Stop: func(x ssa.Instruction) bool { return good(x) || (x != in && r.storageCall(x, "Create") != nil) },
-					Target: func(x ssa.Instruction, val *ir.Valuation) bool {
-						return success(x) && !createFailed(val)
-					}}
-			}
-			c.pathVerdict("C05.L2", fn, "renewal armed on acquisition", in, pq(armed),
-				"the lock is acquired without arming a renewal of the lease (period < lease, closure renewing with this Create's version): the record expires under a live holder")
-			c.pathVerdict("C05.L2", fn, "armed renewal stored in the timer slot", in, pq(stored),
-				"the armed renewal is not stored in the Locker's timer slot: Unlock cannot cancel it")
-		})
-	}
+	c.armOnAcquire(r, "C05.L2", true)
 	c.R.Floor("C05.L2", 4)
 
 	// L3/L4/L5/L6 in the renewal routine
@@ -1220,6 +1161,8 @@ func runC05(c *Ctx) {
 
 	c.renewalOnlyCAS(r, "C05.L8")
 	c.unlockDeletes(r, "C05.L10")
+	c.renewalCancelsOwnTimer(r, "C05.L11")
+	c.waitEndsForCallerReasons(r, "C05.L12")
 
 	// L9: a renewal that is in flight while the holder unlocks arms nothing. Unlock can cancel only the timer it finds in
 	// the slot; a renewal whose timer has already fired arms its successor after that. The renewal therefore has to look
@@ -1360,6 +1303,106 @@ func runC05(c *Ctx) {
 	im := resolveInmemRoles(c)
 	c.inmemExpiry(im, "C05.E1")
 	c.inmemBoundedPark(im, "C05.E2")
+}
+
+// timeoutCallZA returns in as a call of timeout.Call, or nil.
+func timeoutCallZA(in ssa.Instruction) *ssa.Call {
+	call, ok := in.(*ssa.Call)
+	if ok && strings.HasSuffix(ir.CalleeFullName(call), "/timeout.Call") {
+		return call
+	}
+	return nil
+}
+
+// armOnAcquire is C05.L2 / C01.L3: every path from a Create to a success exit, on which the Create did not fail, arms a
+// renewal with this Create's version and a period of lease/k, k >= 2 (and, withStored, stores it in the timer slot). For
+// C01 the period is the point: a first renewal that is due at (or after) the end of the lease finds the record expired,
+// the chain ends and a second caller creates the record while the first still holds the lock.
+func (c *Ctx) armOnAcquire(r *lockRoles, rule string, withStored bool) {
+	isTimeoutCall := timeoutCallZA
+	for _, fn := range r.lockerFns {
+		ir.Instrs(fn, func(in ssa.Instruction) {
+			cr := r.storageCall(in, "Create")
+			if cr == nil {
+				return
+			}
+			var okBlk *ssa.BasicBlock
+			for _, b := range fn.Blocks {
+				for _, s := range b.Succs {
+					if successEdgeOf(cr, b, s) {
+						okBlk = s
+					}
+				}
+			}
+			if okBlk == nil {
+				c.Undecided(rule, fn, "renewal armed on acquisition", in, "cannot find the success edge of Create")
+				return
+			}
+			armed := func(x ssa.Instruction) bool {
+				tc := isTimeoutCall(x)
+				if tc == nil {
+					return false
+				}
+				return r.armsRenewal(tc, cr)
+			}
+			stored := func(x ssa.Instruction) bool {
+				call, ok := x.(*ssa.Call)
+				if !ok || ir.CalleeFullName(call) != "(*sync/atomic.Value).Store" {
+					return false
+				}
+				if _, isSlot := fieldAddrOf(call.Call.Args[0], r.timerF); !isSlot {
+					return false
+				}
+				tc, isTC := ir.Resolve(call.Call.Args[1]).(*ssa.Call)
+				return isTC && isTimeoutCall(tc) != nil
+			}
+			success := func(x ssa.Instruction) bool {
+				ret, ok := x.(*ssa.Return)
+				return ok && ir.IsReturn(x) && possibleSuccessExit(fn, ret)
+			}
+			_ = okBlk
+			// every path from this Create to a success exit, on which the Create did not fail, arms the renewal (and
+			// stores it): paths are enumerated with a per-path valuation, so "err == nil" tested in one place and
+			// "err != nil" in another are the same decision
+			var errTests []*ssa.BinOp
+			ir.Instrs(fn, func(x ssa.Instruction) {
+				bo, ok := x.(*ssa.BinOp)
+				if !ok || (bo.Op != token.EQL && bo.Op != token.NEQ) {
+					return
+				}
+				for _, pair := range [][2]ssa.Value{{bo.X, bo.Y}, {bo.Y, bo.X}} {
+					if ex, isEx := ir.Resolve(pair[0]).(*ssa.Extract); isEx && ex.Tuple == ssa.Value(cr) && ir.IsNilConst(pair[1]) {
+						errTests = append(errTests, bo)
+					}
+				}
+			})
+			createFailed := func(val *ir.Valuation) bool {
+				for _, t := range errTests {
+					if k, ok := val.Known(t); ok {
+						isNil := k == (t.Op == token.EQL)
+						if !isNil {
+							return true
+						}
+					}
+				}
+				return false
+			}
+			pq := func(good func(ssa.Instruction) bool) ir.PathQuery {
+				return ir.PathQuery{Fn: fn, From: in,
+					Stop: func(x ssa.Instruction) bool { return good(x) || (x != in && r.storageCall(x, "Create") != nil) },
+					Target: func(x ssa.Instruction, val *ir.Valuation) bool {
+						// (an exit the path knows to report failure - `return ok` behind ok = false - is no success exit)
+						return success(x) && !createFailed(val) && !exitFailsOnPathYA(fn, x.(*ssa.Return), val)
+					}}
+			}
+			c.pathVerdict(rule, fn, "renewal armed on acquisition", in, pq(armed),
+				"the lock is acquired without arming a renewal of the lease (period < lease, closure renewing with this Create's version): the record expires under a live holder")
+			if withStored {
+				c.pathVerdict(rule, fn, "armed renewal stored in the timer slot", in, pq(stored),
+					"the armed renewal is not stored in the Locker's timer slot: Unlock cannot cancel it")
+			}
+		})
+	}
 }
 
 // verInput names an input of the renewal routine: parameter param, or - when field is set - that field of the struct
